@@ -44,6 +44,8 @@ type RAction struct {
 
 // ReportCase is a C20 case.
 type ReportCase struct {
+	// ProjDir names the directory holding the spokfile ("" = proj)
+	ProjDir string      `json:"proj_dir,omitempty"`
 	Vars    [][2]string `json:"vars"`
 	Tasks   []RTask     `json:"tasks"`
 	Actions []RAction   `json:"actions"`
@@ -59,6 +61,12 @@ var reportVarNames = []string{"VERSION", "NAME", "other", "FLAG_X", "Zed"}
 var reportVarValues = []string{"0.3.0", "spok", "a b", "", "--flag=1", "x/y", "50%", "%d%%"}
 
 func genReport(t *rapid.T) ReportCase {
+	c := genReportBody(t)
+	c.ProjDir = genProjDir(t)
+	return c
+}
+
+func genReportBody(t *rapid.T) ReportCase {
 	c := ReportCase{}
 	nv := rapid.IntRange(0, 5).Draw(t, "nvars")
 	vnames := rapid.Permutation(reportVarNames).Draw(t, "varnames")
@@ -226,7 +234,7 @@ func tableRows(out string) [][]string {
 }
 
 func execReport(s *ev.Shard, b *sandbox.Box, c ReportCase) *rp.Fail {
-	if err := b.Reset(); err != nil {
+	if err := b.ResetAs(c.ProjDir); err != nil {
 		return &rp.Fail{Sig: "harness", Msg: err.Error()}
 	}
 	src := c.source()
